@@ -255,6 +255,48 @@ theorem int_history_independent (I : Integ) (MC : MCInteg) (pre post : List Call
     runSeq I MC [c] = [runCall I MC c] := by
   simp [runSeq]
 
+/-! ## reversing the limits of one axis negates the nested result exactly -/
+
+/-- oddness of the rule in the integrand: `I (-g) = -I g` (every rule that is a weighted sum of values, and every
+    adaptive rule whose decisions depend on magnitudes only) -/
+def OddRule (I : Integ) : Prop := ∀ m q (g : Rat → Rat) a b, I m q (fun x => - g x) a b = - I m q g a b
+
+theorem int1_neg (I : Integ) (hI : OddRule I) (m : Method) (p : Int) (g : Rat → Rat) (a b : Rat) :
+    int1 I m p (fun x => - g x) a b = - int1 I m p g a b := by
+  unfold int1 checkLimits
+  by_cases h : a = b
+  · simp [h]
+  · by_cases h2 : a > b <;> simp [h, h2, hI m]
+
+/-- **nested_swap_axes_3D**: in `Integrate_3D`, exchanging the two limits of any ONE axis negates the result exactly
+    (so any subset of reversed axes multiplies it by the product of the signs). -/
+theorem nested_swap_axes_3D (I : Integ) (hI : OddRule I) (MC : MCInteg) (name : String) (m : Method)
+    (hm : parseMethod name = some m) (p : Int) (f : Rat → Rat → Rat → Rat) (x1 x2 y1 y2 z1 z2 : Rat) :
+    let base := int1 I m p (fun x => int1 I m p (fun y => int1 I m p (fun z => f x y z) z1 z2) y1 y2) x1 x2
+    integrate3D I MC name p f x2 x1 y1 y2 z1 z2 = .ok (- base) ∧
+    integrate3D I MC name p f x1 x2 y2 y1 z1 z2 = .ok (- base) ∧
+    integrate3D I MC name p f x1 x2 y1 y2 z2 z1 = .ok (- base) := by
+  intro base
+  refine ⟨?_, ?_, ?_⟩
+  · rw [nested_order_3D I MC name m hm]; congr 1; exact int1_swap I m p _ x1 x2
+  · rw [nested_order_3D I MC name m hm]; congr 1
+    have e : (fun x => int1 I m p (fun y => int1 I m p (fun z => f x y z) z1 z2) y2 y1)
+        = fun x => - int1 I m p (fun y => int1 I m p (fun z => f x y z) z1 z2) y1 y2 := by
+      funext x; exact int1_swap I m p _ y1 y2
+    rw [e, int1_neg I hI]
+  · rw [nested_order_3D I MC name m hm]; congr 1
+    have e : (fun x => int1 I m p (fun y => int1 I m p (fun z => f x y z) z2 z1) y1 y2)
+        = fun x => - int1 I m p (fun y => int1 I m p (fun z => f x y z) z1 z2) y1 y2 := by
+      funext x
+      have e2 : (fun y => int1 I m p (fun z => f x y z) z2 z1) = fun y => - int1 I m p (fun z => f x y z) z1 z2 := by
+        funext y; exact int1_swap I m p _ z1 z2
+      rw [e2, int1_neg I hI]
+    rw [e, int1_neg I hI]
+
+/-- the midpoint rule is odd: the hypothesis is satisfiable -/
+example : OddRule (fun _ _ f a b => (b - a) * f ((a + b) / 2)) := by
+  intro m q g a b; ring
+
 /-! ## the explicit method parameter is honoured as given (no silent cap) -/
 
 /-- **gk_depth_honoured**: an explicit `method_parameter` `p ≠ 0` reaches the Gauss–Kronrod rule unchanged as its
